@@ -95,7 +95,13 @@ func (r *Response) sendBackResponse(
 }
 
 func createSignature(response *Response, samlResponse *samlp.ResponseType, key *rsa.PrivateKey, cert []byte, signatureAlgorithm string) error {
-	switch response.ProtocolBinding {
+	binding := response.ProtocolBinding
+	if response.AcsUrl == "" && binding == RedirectBinding {
+		// without a consumer URL sendBackResponse writes the XML into the HTTP body,
+		// where a query-string signature cannot travel: sign the assertion itself
+		binding = PostBinding
+	}
+	switch binding {
 	case PostBinding:
 		if err := createPostSignature(samlResponse, key, cert, signatureAlgorithm); err != nil {
 			return fmt.Errorf("failed to sign response: %w", err)
